@@ -1,5 +1,6 @@
 import MosnVerif.Lemmas.DownstreamProps
 import MosnVerif.Lemmas.Downstream.Parked
+import MosnVerif.Lemmas.Downstream.Prov
 /-!
 # C03 — every request ends exactly once, with one reply, in bounded time (property theorems only)
 
@@ -213,6 +214,95 @@ theorem route_reply (c : Cfg) (s : S) :
       (chooseHost c s).direct = true) := by
   constructor <;> (intro hr; simp [chooseHost, hr, sendHijack, orFlag])
 
+/-! ### proxy3 growth: the reply is ONE answer, stale handlers, TerminateStream vs. an in-flight response, the global timer -/
+
+/-- **reply_body_own**: in every reachable state the response the stream holds is ONE answer — held data and held trailers
+belong to the answer of the held headers (an upstream attempt's response stores its three parts together; a local reply —
+no route, no healthy host, the code of an upstream reset / timeout / pool refusal after any number of retried attempts, a
+direct response, `TerminateStream` — stores its own headers and, by the REGENERATED effects of `sendHijackReply` /
+`sendHijackReplyWithBody`, clears the held data / trailers or replaces them by its own: a retried attempt's body never
+survives into the local reply that follows) — and once response headers went downstream no label, on any schedule, stores
+anything any more: the data / trailers the later phases write are the parts that were held when the headers were written.
+So every downstream data / trailers event belongs to the same answer as the headers event before it. -/
+theorem reply_body_own (c : Cfg) (ar aq : Nat) (l : List Label) :
+    okS (reach c ar aq l) ∧
+    ((reach c ar aq l).respStarted = true → ∀ l' : List Label,
+      store (reach c ar aq (l ++ l')) = store (reach c ar aq l) ∧ (reach c ar aq (l ++ l')).respStarted = true) := by
+  refine ⟨okS_run c ar aq l, fun hr l' => ?_⟩
+  have := store_frozen c ar aq (reach c ar aq l) l' (inv_run c ar aq l) hr
+  simpa [reach, run, List.foldl_append] using this
+
+/-- the local reply itself: whatever the stream held before (the body and trailers of a retried attempt), after
+`sendHijackReply[WithBody]` it holds exactly this reply — its data iff it has a body, no trailers, all its own -/
+theorem local_reply_own (s : S) (code : Nat) (body : Bool) :
+    (sendHijack s code body).resp = some ⟨body, false⟩ ∧ (sendHijack s code body).hTok = .loc ∧
+    (sendHijack s code body).dTok = (if body then .loc else .none) ∧ (sendHijack s code body).tTok = .none := by
+  rw [sendHijack_eq]; exact ⟨rfl, rfl, rfl, rfl⟩
+
+/-- **stale_terminate_ignored**: `TerminateStream` on a handler that was created for another generation of the pooled
+`downStream` object (a filter of an EARLIER request that kept its handler and calls it late, after its request finished and
+the object was handed to this request) changes nothing, in every state: the regenerated step program tests the
+generation before it claims anything. -/
+theorem stale_terminate_ignored (c : Cfg) (s : S) (g code : Nat) (h : g ≠ c.gen) :
+    step c s (.terminateStale g code) = s := by
+  simp only [step]
+  rw [terminateStale_eq]
+  have : (g == c.gen) = false := by simpa using h
+  simp [this]
+
+/-- the refusal tests of `TerminateStream` in program order, and the kind of its claim (regenerated): stored response
+headers, cleaned, generation, then a compare-and-swap on `upstreamResponseReceived` -/
+theorem terminate_checks_in_order :
+    Gen.ProxyTerminate.checks = [.responseHeaders, .cleaned, .generation, .claim] ∧ Gen.ProxyTerminate.claimKind = .cas := by
+  decide
+
+/-- **terminate_wins_or_loses_atomically**: exactly one of {upstream response, terminate reply} is delivered.
+(1) An upstream response frame that lands INSIDE an accepted `TerminateStream` — after its claim of the response slot, while it
+resets the upstream request — is dropped: the call with the interleaved frame is the call without it, in every state.
+(2) A response frame that lands after the call (before the worker woke up) is dropped as well.
+(3) And the other way round: after an upstream response was accepted, `TerminateStream` is refused and changes nothing. -/
+theorem terminate_wins_or_loses_atomically (c : Cfg) (s : S) (code k rc : Nat) (d t : Bool) :
+    step c s (.terminateRaced code k d t) = step c s (.terminate code) ∧
+    ((step c s (.terminate code)).urr = true → lateRecv (step c s (.terminate code)) k d t = step c s (.terminate code)) ∧
+    ((step c s (.upResp k rc d t)).resp.isSome = true →
+      step c (step c s (.upResp k rc d t)) (.terminate code) = step c s (.upResp k rc d t)) := by
+  refine ⟨?_, ?_, ?_⟩
+  · simp only [step]; exact terminateRaced_eq c s code k d t
+  · intro h; exact lateRecv_of_urr _ _ _ _ h
+  · intro h
+    simp only [step] at h ⊢
+    rw [terminateL_eq]
+    simp [h]
+
+/-- an accepted `TerminateStream` claims the response slot: on every reachable parked state without a stored response,
+the state after the call has `upstreamResponseReceived = 1` (so (2) above applies), the reply stored is the terminate reply -/
+theorem terminate_claims (c : Cfg) (ar aq : Nat) (l : List Label) (code : Nat) (hb : blocked (reach c ar aq l) = true)
+    (hnr : (reach c ar aq l).resp.isSome = false) :
+    (reach c ar aq (l ++ [.terminate code])).urr = true ∧ (reach c ar aq (l ++ [.terminate code])).resp = some ⟨false, false⟩ ∧
+    (reach c ar aq (l ++ [.terminate code])).hTok = .loc ∧ (reach c ar aq (l ++ [.terminate code])).direct = true := by
+  obtain ⟨hcl, _, _, hurr, _⟩ := blocked_facts c ar aq _ (inv_run c ar aq l) hb
+  have hpk : parked (reach c ar aq l) = true := by simpa [blocked, parked] using hb
+  simp only [reach, run, List.foldl_append, List.foldl_cons, List.foldl_nil, step]
+  simp only [reach, run] at hpk hnr hcl hurr
+  rw [terminateL_eq]
+  simp [hpk, hnr, hcl, hurr, terminateAcc]
+
+/-- **global_timer_spans_retries**: the global timer armed when the request was completely sent is neither stopped nor
+re-armed by a retry.  (1) `setupRetry` (accepting a retry) stops the per-try timer only — regenerated from its body.
+(2) In every reachable state in which the request has been sent and the worker is past the sending phases — in particular
+in the retry phase — NO label arms a global timer: the count of timers armed so far (its generation) is constant.
+(3) While a retry is still possible the timer is armed or has fired (or a terminate reply is pending): nothing stopped it. -/
+theorem global_timer_spans_retries (c : Cfg) (ar aq : Nat) (l : List Label) :
+    (∀ eos, (setupRetry c (reach c ar aq l) eos).1.global = (reach c ar aq l).global ∧
+      (setupRetry c (reach c ar aq l) eos).1.gtGen = (reach c ar aq l).gtGen) ∧
+    ((reach c ar aq l).reqSent = true → sendingPhase (reach c ar aq l).phase = false → ∀ lb : Label,
+      (reach c ar aq (l ++ [lb])).gtGen = (reach c ar aq l).gtGen ∧ (reach c ar aq (l ++ [lb])).reqSent = true) ∧
+    ((reach c ar aq l).cleaned = false → c.oneway = false → (reach c ar aq l).reqSent = true → (reach c ar aq l).rs.isSome = true →
+      (reach c ar aq l).global = true ∨ (reach c ar aq l).globalExpired = true ∨ (reach c ar aq l).direct = true) := by
+  refine ⟨fun eos => ⟨(setupRetry_global c _ eos).1, (setupRetry_global c _ eos).2.1⟩, fun hq hp lb => ?_, (inv_run c ar aq l).k24⟩
+  have := no_rearm c ar aq (reach c ar aq l) lb (inv_run c ar aq l) hq hp
+  simpa [reach, run, List.foldl_append] using this
+
 -- non-vacuity: concrete schedules reaching the situations the theorems talk about
 /-- a parked worker exists: request sent, upstream silent -/
 example : blocked (reach {} 0 0 (List.replicate 12 .work)) = true := by decide
@@ -257,5 +347,30 @@ example : (reach { retryOn := true, numRetries := 1, maxRetries := 1 } 0 0
 /-- client gone while waiting: classified, not silent -/
 example : outcome {} (reach {} 0 0 (List.replicate 12 .work ++ [.downReset .StreamConnectionTermination, .work])) = .clientGone := by
   decide
+/-- attempt 0 answers a retriable 503 WITH a body, the retried attempt is reset by the peer: the local 502 goes out
+header-only — the body of the abandoned exchange is gone — and its parts are the local reply's own -/
+example : ((fun (s : S) => (s.trace, s.resp, s.hTok, s.dTok))
+    (reach { retryOn := true, numRetries := 1 } 0 0
+      (List.replicate 12 .work ++ [.upResp 0 503 true false] ++ List.replicate 5 .work ++ [.upReset 1 .StreamRemoteReset] ++
+        List.replicate 5 .work))) =
+    ([.un 0, .uh 0 true, .un 1, .uh 1 true, .dh 502 true, .log 502 16], some ⟨false, false⟩, .loc, .none) := by decide
+/-- … while the retried response itself was stored as attempt 0's, all three parts -/
+example : ((fun (s : S) => (s.resp, s.hTok, s.dTok, s.tTok))
+    (reach { retryOn := true, numRetries := 1 } 0 0 (List.replicate 12 .work ++ [.upResp 0 503 true true]))) =
+    (some ⟨true, true⟩, .att 0, .att 0, .att 0) := by decide
+/-- a stale handler (generation 0, the request has generation 1) is ignored on a parked worker; one of this generation is not -/
+example : (reach {} 0 0 (List.replicate 12 .work ++ [.terminateStale 0 419]) == reach {} 0 0 (List.replicate 12 .work)) = true ∧
+    (reach {} 0 0 (List.replicate 12 .work ++ [.terminateStale 1 419])).direct = true := by decide
+/-- the raced terminate on the parked worker: the in-flight 200 with body is dropped, the client gets the header-only 418 -/
+example : (reach {} 0 0 (List.replicate 12 .work ++ [.terminateRaced 418 0 true false] ++ List.replicate 3 .work)).trace =
+    [.un 0, .uh 0 true, .ur 0, .dh 418 true, .log 418 DownStreamTerminate] := by decide
+/-- a retry after a per-try timeout: one global timer was armed (at the first request-sent), the retry armed none -/
+example : ((fun (s : S) => (s.gtGen, s.global, s.perTry, s.trace))
+    (reach { retryOn := true, numRetries := 1, tryTimeout := true } 0 0
+      (List.replicate 12 .work ++ [.perTryFire] ++ List.replicate 5 .work))) =
+    (1, true, true, [.un 0, .uh 0 true, .ur 0, .un 1, .uh 1 true]) := by decide
+/-- … whereas a request whose first attempt was refused half-way is armed by its first retry (the only arming a retry does) -/
+example : ((fun (s : S) => (s.gtGen, s.global))
+    (reach { hasData := true } 0 0 ([.poolFail .connfail] ++ List.replicate 12 .work))) = (1, true) := by decide
 
 end MosnVerif.Props.C03
